@@ -131,7 +131,7 @@ def main(tier):
                        'pointer-provenance + flag-liveness dataflow over the four asm variants (store-free, loads only through the buffer argument, every ptest/cmp consumed, return constants). '
                        'The sse/avx/avx2/base variants are never executed by the suite on this host.')
     rep.trusted = ['clang AST', 'nasm/objdump decoding', 'ASMFLOW transfer functions (fail-closed)']
-    check_base(rep)
+    rep.attempt(check_base, rep)
     R = rep.rule('P-MEM-STORE', 'zero-detect kernels store nothing outside their stack frame and load only through the buffer argument', floor=4, unit='kernels')
     RD = rep.rule('L-DEADCMP-MEM', 'every flag-setting compare is consumed', floor=4, unit='kernels')
     RR = rep.rule('R-RET-MEM', 'return value is the constant 0 or a non-zero constant on every path', floor=4, unit='kernels')
@@ -152,15 +152,15 @@ def main(tier):
         ok = ('unknown',) not in kinds and (('bool',) in kinds or (('const', 0) in kinds and any(k[0] == 'const' and k[1] != 0 for k in kinds)))
         RR.check(ok, '%s:%s' % (u.name, sym), 'return values %s are not {0, non-zero constant} / a 0-1 flag' % sorted(map(str, kinds)),
                  sample='%s returns %s' % (sym, sorted(map(str, kinds))))
-    provenance.check_undef(rep, {'mem_zero'}, 'MEM', 4)
-    provenance.check_kwidth(rep, {'mem_zero'}, 'MEM', 4)
-    check_noload(rep)
-    check_combine(rep)
+    rep.attempt(provenance.check_undef, rep, {'mem_zero'}, 'MEM', 4)
+    rep.attempt(provenance.check_kwidth, rep, {'mem_zero'}, 'MEM', 4)
+    rep.attempt(check_noload, rep)
+    rep.attempt(check_combine, rep)
     import bounds
-    bounds.check(rep, {'mem_zero'}, 'MEM', 2)
-    bounds.check_len_width(rep, {'mem_zero'}, 'MEM', 4)
+    rep.attempt(bounds.check, rep, {'mem_zero'}, 'MEM', 2)
+    rep.attempt(bounds.check_len_width, rep, {'mem_zero'}, 'MEM', 4)
     import stridecover
-    stridecover.check(rep, 'MEM', {'mem_zero'}, 8)
+    rep.attempt(stridecover.check, rep, 'MEM', {'mem_zero'}, 8)
     return rep.finish()
 
 
